@@ -19,8 +19,23 @@ class Stage:
         self.exhaustive = False
 
 
-def known_match(finding, case):
-    """a finding matches a failing case if every (dotted path -> value) of its 'match' holds"""
+def known_match(finding, case, failure=None):
+    """a finding matches a failing case if every (dotted path -> value) of its 'match' holds;
+    'match_cmd' is matched against the first statement of the command the trace was rejected at,
+    'observed_codes' against the error codes the interpreter reported for it"""
+    mc = finding.get("match_cmd")
+    if mc is not None:
+        fc = (failure or {}).get("failcmd") or {}
+        st = (fc.get("stmts") or [{}])[0] if fc.get("k") == "direct" else fc
+        if any(st.get(k) != v for k, v in mc.items()):
+            return False
+        oc = finding.get("observed_codes")
+        if oc is not None:
+            got = [e.get("code") for it in ((failure or {}).get("observed") or {}).get("resp", [])
+                   if it.get("k") == "err" for e in it["errs"]]
+            if got != oc:
+                return False
+        return True
     m = finding.get("match")
     if not m:
         return False
@@ -176,6 +191,7 @@ def validate_sessions(pid, name, sessions, chunk=None, timeout=1500, workers=Non
         else:
             why += " (no behaviour of the specification reaches the end of the trace)"
         st.failures.append({"case": rec.get("case") or byid.get(i) or byid.get(i.split("#")[0]), "why": why, "lines": lines,
+                            "failcmd": cmdrec["cmd"] if cmdrec else None,
                             "observed": cmdrec, "spec": info})
     st.evaluations = n
     st.validated = len(acc)
@@ -231,7 +247,7 @@ def finish(pid, tier, seed, level, stages, t0, rule, assumptions, nontrivial=Non
         for f in st.failures:
             hit = None
             for k in known:
-                if known_match(k, f["case"]):
+                if known_match(k, f["case"], f):
                     hit = k
                     break
             if hit:
@@ -455,7 +471,43 @@ def check_C13(tier, seed):
                   nontrivial=st2.nontrivial + st3.nontrivial)
 
 
-CHECKS = {"C13": check_C13, "C12": check_C12, "C08": check_C08, "C01": check_C01, "C04": check_C04, "C06": check_C06}
+def check_C15(tier, seed):
+    import random
+    r = random.Random(seed)
+    import ast as A
+    # random long histories over the whole number range
+    extra = []
+    for i in range(4 if tier == "quick" else 40):
+        cmds = []
+        nums = [r.choice([0, 1, 9, 10, 11, 99, 100, 255, 256, 1000, 32767, 32768, 65528, 65529, r.randint(0, 65529)])
+                for _ in range(12)]
+        for j in range(40 if tier == "quick" else 200):
+            k = r.random()
+            n = r.choice(nums)
+            if k < 0.45:
+                cmds.append(A.line(n, A.pr(A.Str(r.choice(["A", "B", "é"])), ";"), *([A.rem("x é")] if r.random() < 0.2 else [])))
+            elif k < 0.6:
+                cmds.append(A.line(n))
+            else:
+                a, b = r.choice(nums), r.choice(nums)
+                form = r.choice(["one", "from", "to", "range", "all"])
+                mk = A.list_ if k < 0.85 else A.delete
+                if form == "range" and a > b and r.random() < 0.8:
+                    a, b = b, a
+                cmds.append(A.direct(mk(a if form in ("one", "from", "range") else None,
+                                        b if form in ("to", "range") else None, form=form)))
+        cmds.append(A.direct(A.list_()))
+        extra.append(A.session("C15r-%d-%d" % (seed, i), cmds))
+    return mc_sess_check("C15", tier, seed, "MC_C15.tla",
+        rule="TLC explores the state graph of the program store over a small universe of line numbers (0, 2, 10, 65529 "
+             "...) under every operation: enter / replace / bare number, LIST and DELETE in the forms n, n-, -n, a-b and "
+             "bare with endpoints on, between, before and after existing lines, inverted ranges and numbers above 65529; "
+             "ListExact, DeleteExact, LineExact are action properties; every transition is a session ending in a full "
+             "LIST whose text must equal the specified listing; plus seeded random long histories over 0..65529",
+        extra_sessions=[("rnd", extra)])
+
+
+CHECKS = {"C15": check_C15, "C13": check_C13, "C12": check_C12, "C08": check_C08, "C01": check_C01, "C04": check_C04, "C06": check_C06}
 for _p in ("C09", "C10", "C11", "C17"):
     CHECKS[_p] = prog_check(_p)
 
